@@ -24,7 +24,7 @@ func init() {
 		Title: "Encoding is deterministic and read-only",
 		Level: "model_checking",
 		Rule: "(A) determinism on the map-order seam: the instrumenter rewrites every range over a map in the library into an iteration whose order is a choice of the explorer; for CONNECT with every subset of the six will properties (top level empty and full) and for SUBSCRIBE/SUBACK/UNSUBACK, EVERY combination of iteration orders of every map range executed by WriteTo (and, separately, by String and Dump) is explored and must give identical bytes/text — Go leaves the order unspecified, so each is a legal execution. " +
-			"(B) read-only: explicit-state search with operations {WriteTo, String, Dump, WellFormed, all accessors} on packets of the bases and of every <=2 (quick) / <=3 (thorough) field deviation in presence from either base: the deep digest of the packet's concrete object graph and of all package-level variables must be identical before and after every operation (every transition is a self-loop) for every operation sequence of length <=3, and re-encoding after any sequence gives the same bytes. " +
+			"(B) read-only: explicit-state search with operations {WriteTo, String, Dump, WellFormed, all accessors} on packets of the bases and of every <=2 (quick) / <=3 (thorough) field deviation in presence from either base: for every operation sequence of length <=3, after every operation the deep digest of the packet's concrete object graph and of all package-level variables is compared with the initial one: an identical digest proves the transition is a self-loop; if it differs, WriteTo bytes, every accessor, String and Dump are compared with their initial values and any difference is a violation (a state change without observable effect, e.g. an internal cache, is counted but is no violation). " +
 			"(C) cross-check on the free-running (un-instrumented) runtime: the corpus is encoded 50x in each of three separate processes and fingerprints compared. (D) static scan of the library for other nondeterminism sources. " +
 			"states = distinct (packet, digest) states; transitions = operations + explored orderings; distinct_nontrivial = distinct (packet, ordering vector) and (packet, operation sequence) executions.",
 		Assumptions: []string{
@@ -88,6 +88,7 @@ func c11Targets() []c11Target {
 
 // c11Render runs one operation kind under the given orderings.
 func c11Render(t c11Target, op string, c *explore.Chooser, uniform bool) (string, int) {
+	resetGlobals()
 	p := gen.Schemas[t.Type].Make(t.Vec)
 	if (t.Type == 8) && len(p.Filters) == 0 {
 		// keep it constructible; WriteTo works without filters too
@@ -166,6 +167,7 @@ func c11Apply(q mq.Packet, op string) {
 
 // c11ReadOnly runs one operation sequence on a fresh packet.
 func c11ReadOnly(t c11Target, seq []int) *core.Finding {
+	resetGlobals()
 	p := gen.Schemas[t.Type].Make(t.Vec)
 	q, err, res := buildGuarded(p)
 	if err != nil || res.Panic != "" {
@@ -173,33 +175,41 @@ func c11ReadOnly(t c11Target, seq []int) *core.Finding {
 	}
 	desc := gen.Schemas[t.Type].Describe(t.Vec)
 	roots := append([]any{q}, globalsRoots()...)
-	first, _, _, _ := writePacket(q, 0)
-	obs0 := flatKV(observeKV(q))
 	d0 := stateDigest(roots...)
-	for i, oi := range seq {
+	first, _, _, _ := writePacket(q, 0)
+	obs0 := flatKV(observeKV(q)) + "|" + q.String() + "|" + dumpOf(q)
+	names := []string{}
+	for _, oi := range seq {
 		op := c11Ops[oi]
+		names = append(names, op)
 		res := guarded(0, func() { c11Apply(q, op) })
 		if res.Panic != "" {
 			return nil // C19's business
 		}
-		if d := stateDigest(roots...); d != d0 {
-			names := []string{}
-			for _, j := range seq[:i+1] {
-				names = append(names, c11Ops[j])
-			}
-			return &core.Finding{Class: "writes-state/" + op + "/" + gen.Schemas[t.Type].Name, Sig: map[string]string{"op": op},
-				Detail: fmt.Sprintf("%s: after [%s] the deep digest of packet+globals changed (%s -> %s): %s is not read-only", desc, strings.Join(names, ","), d0, d, op)}
+		// A digest that is still the initial one proves (the operations being
+		// deterministic functions of the concrete state) that nothing
+		// observable changed; only otherwise the observable comparison runs.
+		if stateDigest(roots...) == d0 {
+			continue
 		}
-	}
-	again, _, _, _ := writePacket(q, 0)
-	if hexOf(again) != hexOf(first) {
-		return &core.Finding{Class: "reencode-differs/" + gen.Schemas[t.Type].Name, Detail: fmt.Sprintf("%s: bytes differ after operation sequence %v", desc, seq)}
-	}
-	if o := flatKV(observeKV(q)); o != obs0 {
-		return &core.Finding{Class: "accessors-differ/" + gen.Schemas[t.Type].Name, Detail: fmt.Sprintf("%s: accessor values differ after operation sequence %v", desc, seq)}
+		c11DigestChanges++
+		again, _, _, _ := writePacket(q, 0)
+		if hexOf(again) != hexOf(first) {
+			return &core.Finding{Class: "reencode-differs/" + op + "/" + gen.Schemas[t.Type].Name, Sig: map[string]string{"op": op},
+				Detail: fmt.Sprintf("%s: after [%s] WriteTo gives %s, before it gave %s", desc, strings.Join(names, ","), abbrevHex(again), abbrevHex(first))}
+		}
+		if o := flatKV(observeKV(q)) + "|" + q.String() + "|" + dumpOf(q); o != obs0 {
+			return &core.Finding{Class: "accessors-differ/" + op + "/" + gen.Schemas[t.Type].Name, Sig: map[string]string{"op": op},
+				Detail: fmt.Sprintf("%s: after [%s] accessor values / renderings differ: %s", desc, strings.Join(names, ","), clip(firstDiff(o, obs0), 120))}
+		}
 	}
 	return nil
 }
+
+// c11DigestChanges counts operations after which the concrete state differed
+// from the initial one without any observable difference (e.g. an internal
+// cache): not a violation of C11, reported in the evidence.
+var c11DigestChanges int64
 
 // Fingerprint encodes a fixed corpus repeatedly on the free-running runtime
 // and prints a digest; used across processes.
@@ -350,6 +360,7 @@ func runC11(x *core.Ctx) {
 			return map[string]any{"type": s.Name, "packets": len(targets), "operation_sequences_each": len(seqs)}
 		})
 	}
+	x.R.Extra["state_changes_without_observable_effect"] = c11DigestChanges
 	// (C) cross-process fingerprints on the plain build
 	if x.Shard == 0 {
 		if bin := os.Getenv("VERIF_PLAIN_BIN"); bin != "" {
